@@ -158,6 +158,18 @@ func observe(sb align.SeqBag, al align.Alignment, probes []string) string {
 	return b.String()
 }
 
+// decNames decodes a list of names: percent-encoded, "/"-separated, "_" when empty.
+func decNames(s string) []string {
+	if s == "_" || s == "" {
+		return []string{}
+	}
+	out := []string{}
+	for _, n := range strings.Split(s, "/") {
+		out = append(out, pctDec(n))
+	}
+	return out
+}
+
 func parseFrac(s string) float64 {
 	f := strings.Split(s, "/")
 	if len(f) == 1 {
@@ -429,6 +441,12 @@ func (h *histState) step(op string) string {
 		return "ok"
 	case "revcomp":
 		return errs(h.sb.ReverseComplement())
+	case "revcompseqs":
+		names := decNames(f[1])
+		for _, n := range names {
+			h.addProbe(n)
+		}
+		return errs(h.sb.ReverseComplementSequences(names...))
 	}
 	return "bad-op"
 }
